@@ -28,4 +28,29 @@ var props = map[string]*Prop{
 		},
 		Bounds: []string{"window size n symbolic in 1..254; base, top, seq full 8-bit domains"},
 	},
+	"C19": {
+		ID: "C19",
+		Runs: []Run{
+			{Pkg: "gbn", Harness: "VH_C19_GBN_RT", MustReach: []string{"roundtrip"}, What: "Deserialize(Serialize(m)) == m, six packet types, all field values, payload 0..maxlen symbolic bytes",
+				Quick: q(map[string]int{"maxlen": 8}), Thorough: q(map[string]int{"maxlen": 64})},
+			{Pkg: "gbn", Harness: "VH_C19_GBN_Canon", MustReach: []string{"canon"}, What: "any bytes of length 0..maxlen that deserialise re-serialise to an equal value",
+				Quick: q(map[string]int{"maxlen": 8}), Thorough: q(map[string]int{"maxlen": 64})},
+		},
+		Bounds: []string{"payload / packet length 0..8 quick, 0..64 thorough; every byte and flag value symbolic"},
+	},
+	"C14": {
+		ID: "C14",
+		Runs: []Run{
+			{Pkg: "gbn", Harness: "VH_C14_Small", MustReach: []string{"sent"}, What: "two consecutive messages, every (length, maxChunkSize) pair, symbolic contents: one Recv per Send, equal bytes",
+				Quick: q(map[string]int{"maxlen": 4, "maxchunk": 5}), Thorough: q(map[string]int{"maxlen": 9, "maxchunk": 10})},
+			{Pkg: "gbn", Harness: "VH_C14_Chunks", MustReach: []string{"chunks"}, What: "chunk sizes, FinalChunk placement and chunk contents",
+				Quick: q(map[string]int{"maxlen": 6, "maxchunk": 4}), Thorough: q(map[string]int{"maxlen": 16, "maxchunk": 9})},
+			{Pkg: "gbn", Harness: "VH_C14_RecvDeadline", MustReach: []string{"deadline"}, Synctest: true, What: "receive deadline expiring inside a message, Recv retried (virtual time, producer goroutine)",
+				Quick: q(map[string]int{"maxlen": 4}), Thorough: q(map[string]int{"maxlen": 6})},
+			{Pkg: "gbn", Harness: "VH_C14_SendDeadline", MustReach: []string{"send-deadline"}, Synctest: true, What: "send deadline expiring inside a message, Send retried",
+				Quick: q(map[string]int{"maxlen": 3}), Thorough: q(map[string]int{"maxlen": 5})},
+		},
+		Bounds: []string{"payload 0..4 x chunk 0..5 (quick), 0..9 x 0..10 (thorough), sequences of 2 messages; deadlines at every chunk boundary"},
+		Outside: []string{"large payloads (symbolic-length variant not registered yet)", "transport faults (covered by C01)"},
+	},
 }
